@@ -61,16 +61,51 @@ def generate(o):
         raise KeyError("RelationSchema(...) in __add__")
 
     def add_copies():
+        """Does the sum's column list start as a *copy* of the left operand's list (True) or as that very list (False)?
+        Looks at the first assignment whose value mentions `self.columns` and whose target ends up as the sum's
+        columns; anything else (conditional expressions, helper calls) is an unknown shape -> degraded."""
         fn = sch.func("__add__", "RelationSchema")
-        for n in ast.walk(fn):
-            if isinstance(n, ast.Assign) and isinstance(n.value, (ast.Subscript, ast.Call)):
-                v = n.value
-                if isinstance(v, ast.Subscript) and isinstance(v.slice, ast.Slice) and v.slice.lower is None and v.slice.upper is None \
-                        and isinstance(v.value, ast.Attribute) and v.value.attr == "columns":
-                    return True
-                if isinstance(v, ast.Call) and isinstance(v.func, ast.Name) and v.func.id == "list" and v.args \
-                        and isinstance(v.args[0], ast.Attribute) and v.args[0].attr == "columns":
-                    return True
+
+        def is_self_columns(v):
+            return isinstance(v, ast.Attribute) and v.attr == "columns" and isinstance(v.value, ast.Name) and v.value.id == "self"
+
+        def verdict(v):
+            if is_self_columns(v):
+                return False  # the very list object
+            if isinstance(v, ast.Subscript) and isinstance(v.slice, ast.Slice) and v.slice.lower is None and v.slice.upper is None \
+                    and v.slice.step is None and is_self_columns(v.value):
+                return True
+            if isinstance(v, ast.Call) and isinstance(v.func, ast.Name) and v.func.id in ("list", "copy") and len(v.args) == 1 \
+                    and is_self_columns(v.args[0]):
+                return True
+            if isinstance(v, ast.Call) and isinstance(v.func, ast.Attribute) and v.func.attr == "copy" and not v.args and is_self_columns(v.func.value):
+                return True
+            if isinstance(v, ast.Call) and isinstance(v.func, ast.Attribute) and v.func.attr == "copy" and len(v.args) == 1 \
+                    and is_self_columns(v.args[0]):
+                return True
+            if isinstance(v, ast.List) and len(v.elts) == 1 and isinstance(v.elts[0], ast.Starred) and is_self_columns(v.elts[0].value):
+                return True
+            if isinstance(v, ast.ListComp) and len(v.generators) == 1 and is_self_columns(v.generators[0].iter) and not v.generators[0].ifs \
+                    and isinstance(v.elt, ast.Name) and isinstance(v.generators[0].target, ast.Name) and v.elt.id == v.generators[0].target.id:
+                return True
+            if isinstance(v, ast.BinOp) and isinstance(v.op, ast.Add) and is_self_columns(v.left):
+                return True  # self.columns + extra builds a new list
+            return None
+
+        for n in fn.body:
+            for m in ast.walk(n):
+                cands = []
+                if isinstance(m, ast.Assign) and len(m.targets) == 1:
+                    cands.append(m.value)
+                if isinstance(m, ast.Call) and isinstance(m.func, ast.Name) and m.func.id == "RelationSchema":
+                    cands += [k.value for k in m.keywords if k.arg == "columns"] + list(m.args[2:3])
+                for v in cands:
+                    if any(is_self_columns(x) for x in ast.walk(v)) and not (
+                            isinstance(v, (ast.ListComp, ast.SetComp)) and not isinstance(v.elt, ast.Name)):
+                        r = verdict(v)
+                        if r is None:
+                            raise KeyError("how the sum's list derives from self.columns: " + ast.unparse(v)[:40])
+                        return r
         raise KeyError("self.columns[:]")
 
     def pop_test():
